@@ -68,6 +68,24 @@ Theorem C29_brackets_matched_or_reported : forall tl st st' fz,
 Proof. exact (fuse_braces_accounts parser_cfg). Qed.
 Print Assumptions C29_brackets_matched_or_reported.
 
+(* ... and WHICH tokens are fused: every pair of fuseBraces joins an opening bracket with a closing bracket of the
+   same kind, both among the remembered bracket tokens (b_kw o is its own left bracket, b_kw c is not, and the left
+   bracket of c is b_kw o); or it joins an opening bracket that is never closed with a token fuseBraces appends for
+   it, and then an unmatched-delimiter diagnostic of level Error mentions that opening bracket.  So no bracket is
+   ever matched with a bracket of another kind, and none with a bracket facing the same way. *)
+Theorem C29_fused_brackets_match : forall tl st st' fz,
+  fuse_braces parser_cfg tl st = (st', fz) ->
+  forall p, In p fz ->
+    (exists o c, In o (braces st) /\ In c (braces st)
+       /\ (N.eqb (b_kw o) (kw_left parser_cfg (b_kw o)) = true
+           /\ N.eqb (b_kw c) (kw_left parser_cfg (b_kw c)) = false
+           /\ N.eqb (b_kw o) (kw_left parser_cfg (b_kw c)) = true)
+       /\ p = (b_id o, b_id c))
+    \/ (exists o, In o (braces st) /\ N.eqb (b_kw o) (kw_left parser_cfg (b_kw o)) = true /\ fst p = b_id o
+          /\ exists d, In d (diags st') /\ (d_class d = DUnmatched /\ d_level d = L_Error) /\ In (b_sp o) (d_spans d)).
+Proof. exact (fuse_braces_pairs parser_cfg). Qed.
+Print Assumptions C29_fused_brackets_match.
+
 (* non-vacuity *)
 Example C29_nonvacuous :
   prelude_ok parser_cfg [97; 123; 34; 120; 34; 125; 32; 94]%N
@@ -80,3 +98,15 @@ Example C29_nonvacuous :
                {| o_kind := 0; o_start := 7; o_end := 8; o_kw := 0; o_off := 0 |} ]
              [ {| d_level := 2; d_class := DUnrecognized; d_spans := [(7, 8)] |} ].
 Proof. exact xlex_example. Qed.
+
+Example C29_brackets_nonvacuous :
+  xlex parser_cfg repaired [40; 93; 40]%N
+  = XDone [ {| o_kind := 6; o_start := 0; o_end := 1; o_kw := 131; o_off := 4 |};
+            {| o_kind := 6; o_start := 1; o_end := 2; o_kw := 119; o_off := 0 |};
+            {| o_kind := 6; o_start := 2; o_end := 3; o_kw := 131; o_off := 1 |};
+            {| o_kind := 0; o_start := 3; o_end := 3; o_kw := 0; o_off := -1 |};
+            {| o_kind := 0; o_start := 3; o_end := 3; o_kw := 0; o_off := -4 |} ]
+          [ {| d_level := 2; d_class := DUnmatched; d_spans := [(1, 2)] |};
+            {| d_level := 2; d_class := DUnmatched; d_spans := [(0, 1)] |};
+            {| d_level := 2; d_class := DUnmatched; d_spans := [(2, 3)] |} ].
+Proof. exact xlex_brackets_example. Qed.
